@@ -147,3 +147,31 @@ def ap_check_tx_validity():
             C("balanced", "res is Ok ==> balanced(tx.kind, in_sums(tx.inputs@, relevant_coins@, tx.inputs@.len() as int), spec_total_outputs(*tx))", "C01", "C02"),
             C("locked_err", "(exists|i: int| 0 <= i < tx.inputs@.len() && (new_stakes@.contains_key((#[trigger] tx.inputs@[i]).txhash) || this.stakes@.contains_key(tx.inputs@[i].txhash))) && !lock_legacy(this.network, this.height) ==> res is Err", "C13"),
         ])
+
+def ap_output_coins_from_tx():
+    return dict(requires=[C("small", "tx.outputs@.len() <= 255")],
+                ensures=[C("created", "created_map(*tx, height, res@)", "C02", "C01")])
+
+# ---- melmint.rs reward arithmetic / DoscMint (C18)
+def mm_microergs():
+    return dict(ensures=[C("memo", "res as nat == spec_microergs(height.0 as nat)", "C18", char=True)])
+
+def mm_dosc_to_erg():
+    return dict(requires=[C("fits", "spec_dosc_to_erg(height.0 as nat, real_ as int) <= u128::MAX",
+                            note="C09 envelope: the inflated reward fits in u128 (`expect` panics otherwise); needs a MelPoW proof of difficulty beyond ~64")],
+                ensures=[C("formula", "res as int == spec_dosc_to_erg(height.0 as nat, real_ as int)", "C18", char=True)])
+
+def mm_calculate_reward():
+    return dict(requires=[C("speed", "dosc_speed != 0"), C("diff", "difficulty <= 100")],
+                ensures=[C("formula", "res as int == spec_reward(my_speed as int, dosc_speed as int, difficulty as nat, tip910)", "C18", char=True)])
+
+def ap_validate_doscmint():
+    return dict(
+        requires=[C("inputs", "tx.inputs@.len() > 0", note="a DoscMint without inputs never balances (total_outputs always has a MEL entry): rejected by check_tx_validity before this runs"),
+                  C("hist", "history_ok(*this)", note="state invariant: history holds exactly the heights below the current one; recorded DOSC speeds are >= 10^6"),
+                  C("heights", "forall|id: CoinID| relevant_coins@.contains_key(id) ==> (#[trigger] relevant_coins@[id]).height.0 <= this.height.0", note="state invariant: no coin is younger than the block being built"),
+                  C("fit", "outputs_fit(*tx)"),
+                  C("pow_total", "dosc_pow_total(*this, relevant_coins@, *tx)", envelope_of="F-C09-melpow"),
+                  C("reward_fits", "dosc_reward_fits(*this)", note="C09 envelope: inflated reward < 2^128")],
+        ensures=[C("c18", "res is Ok ==> doscmint_ok(*this, relevant_coins@, *tx, res->Ok_0)", "C18", "C01"),
+                 C("err", "res is Err ==> res->Err_0 is InvalidMelPoW || res->Err_0 is MalformedTx || res->Err_0 is NonexistentCoin", "C18", char=True)])
